@@ -102,8 +102,27 @@ def mc_and_gen(cfgs, tier, timeout):
     """run each MC config; returns (stats, behaviours, cex behaviours)"""
     stats, behs, cex = [], [], []
     for cfg in cfgs:
-        r = run_tlc("MCWallet.tla", cfg, "mc_" + cfg.replace(".cfg", ""), timeout=timeout)
-        if r["error"] and not r["completed"]:
+        sim = None
+        if "@sim=" in cfg:
+            # a configuration too large to enumerate: TLC random walks (-simulate), every
+            # invariant / action property is still evaluated on every state / step visited
+            cfg, spec_ = cfg.split("@sim=")
+            n, d = spec_.split("x")
+            sim = (int(n), int(d))
+            r = run_tlc("MCWallet.tla", cfg, "mc_" + cfg.replace(".cfg", "") + "_sim", timeout=timeout, workers=4,
+                        simulate="num=%d" % sim[0], extra=["-depth", str(sim[1]), "-seed", str(seed())])
+            m = re.search(r"Progress: (\d+) states checked, (\d+) traces generated", r["out"])
+            if m:
+                r["states"], r["transitions"] = int(m.group(1)), int(m.group(1))
+            r["completed"] = False
+            r["error"] = r["rc"] != 0
+        else:
+            r = run_tlc("MCWallet.tla", cfg, "mc_" + cfg.replace(".cfg", ""), timeout=timeout)
+        if r["error"] and not r["completed"] and r["rc"] == 124 and r["states"] > 0 and not r["violated"]:
+            # the time budget of the exploration ran out: what was explored and printed is used,
+            # the evidence says the bounded space was not exhausted
+            log("  MC %s: INCOMPLETE - time budget (%ds) exhausted after %d distinct states" % (cfg, timeout, r["states"]))
+        elif r["error"] and not r["completed"]:
             log(r["out"][-3000:])
             raise ToolError("TLC failed on " + cfg)
         b = parse_printed(r["printed"]["REPLAY"], "REPLAY")
@@ -112,11 +131,13 @@ def mc_and_gen(cfgs, tier, timeout):
         m = re.search(r"(?m)^\s*NFund\s*=\s*(\d+)", open(os.path.join(SPEC, cfg)).read())
         if m:
             su = {"ev": "setup", "nfund": int(m.group(1))}
+            if re.search(r"(?m)^\s*FundAcct2\s*=\s*TRUE", open(os.path.join(SPEC, cfg)).read()):
+                su["fund2"] = True
             b = [[su] + x for x in b]
             for x in c:
                 if isinstance(x.get("hist"), list):
                     x["hist"] = [su] + x["hist"]
-        stats.append({"cfg": cfg, "states": r["states"], "transitions": r["transitions"], "depth": r["depth"],
+        stats.append({"cfg": cfg, "mode": ("simulation num=%dx4 depth=%d" % sim) if sim else "exhaustive (bounded)", "states": r["states"], "transitions": r["transitions"], "depth": r["depth"],
                       "completed": r["completed"], "violated": sorted(set(x.get("inv", "?") for x in c)),
                       "behaviours_emitted": r["printed_counts"]["REPLAY"], "cex": r["printed_counts"]["CEX"], "wall_s": round(r["wall_s"], 1),
                       "action_coverage": r["coverage"]})
